@@ -113,7 +113,25 @@ def parse_trace(out):
     Everything else (echo of typed lines, Ok prompts, FILES listings, soft float messages) is skipped.
     """
     ev = []
-    for raw in out.split(b'\r\n'):
+    pieces = out.split(b'\r\n')
+    lines = []
+    i = 0
+    while i < len(pieces):
+        raw = pieces[i]
+        # a program line that filled the 80-column screen line exactly was wrapped by the console
+        # PRINT also starts a new screen line before a string that does not fit on the current one
+        if raw.startswith(b'#'):
+            last = raw
+            while i + 1 < len(pieces) and not pieces[i + 1].startswith(b'#') and (
+                    (len(last) == 80 and not raw.endswith(b'|'))
+                    or (pieces[i + 1].endswith(b'|') and b'\xff' not in pieces[i + 1])
+                ):
+                i += 1
+                last = pieces[i]
+                raw += last
+        lines.append(raw)
+        i += 1
+    for raw in lines:
         if not raw:
             continue
         if raw.startswith(b'#'):
@@ -1041,7 +1059,10 @@ def judge20(run, cfg, ops, call_lines, out, hook):
         # ---- oracle C: outcome
         res_class = _result_class(cfg, op, m)
         nothing = not results and got_err is None
-        if any(a[0] == 'break' for a in attempts) and not breaks:
+        # only a Break that the simulator actually delivered (the call really blocked) must be reported;
+        # the model may expect a block that an earlier argument error pre-empted (soft float corner)
+        if any(a[0] == 'break' for a in attempts) and not breaks and any(
+                dl[0] == i and dl[1] == 'break' for dl in hook.delivered):
             run.violate('C20', 'break-not-reported', 'call %d %s: no Break message; events %r; delivered %r' % (
                 i, _stmt_text(op), mid, hook.delivered))
         if breaks and not relaxed and not any(a[0] == 'break' for a in attempts):
@@ -1115,8 +1136,10 @@ def judge20(run, cfg, ops, call_lines, out, hook):
         # ---- trap handler dumps: the handler runs after the statement, so it sees the after-state
         for dd in tdumps:
             run.probe('trap-handler-dump')
-            if dd and dd != after:
-                diff = [k for k in after if dd.get(k) != after[k]]
+            # the assignment target is left out: when the statement is interrupted (QUIT/Break) after the
+            # trap was triggered, the handler legitimately runs before the statement is re-executed
+            diff = [k for k in after if dd and dd.get(k) != after[k] and k != target]
+            if dd and diff:
                 run.violate('C20', 'trap-handler-sees-parameter-values',
                             'call %d %s: ON KEY handler dump differs from the dump after the call in %r: %r vs %r' % (
                                 i, _stmt_text(op), diff, dd, after))
